@@ -157,10 +157,18 @@ def link_tables(draw, nfaces, axes=("X", "Y"), min_pairs=1, allow_self=True, kee
     return out
 
 
-def table_to_xgcm(table, facedim="face"):
-    """JSON table -> the nested dict xgcm expects (int face keys, tuple links)."""
-    return {facedim: {int(f): {a: tuple(None if l is None else (int(l[0]), l[1], bool(l[2])) for l in sides)
-                               for a, sides in per.items()} for f, per in table.items()}}
+def table_to_xgcm(table, facedim="face", face_order=None, reverse_axes=False):
+    """JSON table -> the nested dict xgcm expects (int face keys, tuple links).  `face_order` (a list of
+    positions) and `reverse_axes` change only the order in which faces / axes are *listed* in the dicts."""
+    faces = list(table)
+    if face_order:
+        faces = [faces[i] for i in face_order if i < len(faces)] + [f for k, f in enumerate(faces) if k not in face_order]
+    out = {}
+    for f in faces:
+        per = table[f]
+        axes = list(per)[::-1] if reverse_axes else list(per)
+        out[int(f)] = {a: tuple(None if l is None else (int(l[0]), l[1], bool(l[2])) for l in per[a]) for a in axes}
+    return {facedim: out}
 
 
 def table_to_model(table):
